@@ -493,7 +493,7 @@ func stdlibHeapPure(name string) bool {
 		"bytes.HasSuffix", "bytes.Contains", "bytes.LastIndex", "bytes.TrimSpace", "bytes.Compare", "reflect.DeepEqual", "sort.SearchInts", "sort.SearchStrings", "sort.Search",
 		"os.Getenv", "os.Getuid", "os.Geteuid", "os.Getpid", "os.IsNotExist", "os.IsExist", "os.IsPermission", "regexp.MustCompile", "(*regexp.Regexp).", "encoding/json.Marshal", "encoding/base64.", "(*encoding/base64.", "crypto/", "hash/", "(*sync.Mutex).", "(*sync.RWMutex).", "(*sync.Cond).", "(*sync.WaitGroup).", "(*sync.Once).", "sync/atomic.", "(*sync/atomic.",
 		"unicode/utf8.Valid", "os/user.", "os.Stat", "os.Lstat", "os.Readlink", "os.ReadFile", "io/ioutil.ReadFile", "os.Remove", "os.RemoveAll", "os.Rename", "os.Symlink", "os.MkdirAll", "os.Mkdir", "os.Chmod", "os.Chown",
-		"path/filepath.Glob", "path/filepath.EvalSymlinks", "syscall.", "log.", "(*log.", "net/url.", "net/http.Error"} {
+		"path/filepath.Glob", "path/filepath.EvalSymlinks", "io.MultiWriter", "io.TeeReader", "syscall.", "log.", "(*log.", "net/url.", "net/http.Error"} {
 		if strings.HasPrefix(name, p) {
 			return true
 		}
